@@ -46,6 +46,7 @@ type scen struct {
 	Alt     []int           `json:"alt"`
 	Nt      bool            `json:"nt"`
 	Through bool            `json:"through"`
+	Same    bool            `json:"same"`
 
 	raw   string
 	shape *Shape
@@ -76,7 +77,7 @@ type program struct {
 	n     int
 }
 
-const header = "package main\n\nfunc rec(id int32) {\nif r := recover(); r != nil {\nprintln(id, -1)\n}\n}\n\n"
+const header = "package main\n\nfunc b2i(b bool) int32 {\nif b {\nreturn 1\n}\nreturn 0\n}\n\nfunc rec(id int32) {\nif r := recover(); r != nil {\nprintln(id, -1)\n}\n}\n\n"
 
 // renderScen returns the body of the scenario function.
 func renderScen(e *typeEnv, sc *scen, id int) (string, error) {
@@ -124,6 +125,10 @@ func renderScen(e *typeEnv, sc *scen, id int) (string, error) {
 			mut = "func() {\n" + mut + "\n}()"
 		}
 		out = fmt.Sprintf("pr%s(%d, %s)\npr%s(%d, %s)", e.helperName(pt), id, srcRd, e.helperName(pt), id, dstRd)
+		if sc.Same && tpl.PtrEq != "" {
+			// pointer identity: both expressions denote the same storage in the specification
+			out += fmt.Sprintf("\nprintln(int32(%d), b2i(%s))", id, tpl.PtrEq)
+		}
 	}
 	body := strings.NewReplacer("$MUT", mut, "$OUT", out).Replace(tpl.Body)
 	first := []Step{{"f", 1}}
@@ -266,6 +271,11 @@ func Run(c *core.Ctx, pool *gjs.Pool) {
 				return err
 			}
 			sc.sub = string(sc.Pt) != string(sc.S)
+			if tpl, ok := templates[sc.C]; ok && sc.Same && tpl.PtrEq != "" {
+				// SameStorage(src, dst) was established by TLC (CtxOK): the pointer comparison prints 1
+				sc.Pred = append(sc.Pred, 1)
+				sc.Alt = append(sc.Alt, 1)
+			}
 			u.scens = append(u.scens, sc)
 			ctxSeen[sc.C]++
 			total++
